@@ -366,10 +366,7 @@ func TestC10Worker(t *testing.T) {
 	marker("END switches")
 	// run-time faults, including Go run-time panics that Execute recovers
 	marker("BEGIN faults")
-	for i, script := range []string{"return 7 % 0;", "a = 7; b = len(\"\"); return a % b;", "return 1.5 % 0.2;", "return 1 / 0;", "function f(n) { return n % (n - n); } return f(3);",
-		"foreach x in [3, 2, 1, 0] { y = 6 % x; } return y;", "return [1, 2][9].x;", "return nosuch(1);", "panic(\"/etc/passwd\");", "panic();", "return \"a\" + 1;",
-		"function r(n) { return r(n + 1); } return r(0);", "x = f(); return x;", "return {[1]: 2};", "return 1 .. \"a\";", "foreach x in 5 { }", "return Name[0][0][0][0];",
-		"return sort(5) % 0;", "return -(\"a\");", "return √\"a\";", "return len(); ", "return 9223372036854775807 % -1;", "return (0 - 9223372036854775807 - 1) / -1;"} {
+	for i, script := range faultScripts {
 		marker(fmt.Sprintf("CALL fault %d", i))
 		run(script, nil, map[string]interface{}{"Name": "/etc/passwd"})
 		run(script, nil, nil)
@@ -509,6 +506,13 @@ func auditLog(log string, zoneinfo string) (violations []string, inside int, mar
 	}
 	return
 }
+
+// faultScripts end in a run-time fault, some of them in a Go run-time panic
+// that Execute recovers (also used by the CLI part of C20).
+var faultScripts = []string{"return 7 % 0;", "a = 7; b = len(\"\"); return a % b;", "return 1.5 % 0.2;", "return 1 / 0;", "function f(n) { return n % (n - n); } return f(3);",
+		"foreach x in [3, 2, 1, 0] { y = 6 % x; } return y;", "return [1, 2][9].x;", "return nosuch(1);", "panic(\"/etc/passwd\");", "panic();", "return \"a\" + 1;",
+		"function r(n) { return r(n + 1); } return r(0);", "x = f(); return x;", "return {[1]: 2};", "return 1 .. \"a\";", "foreach x in 5 { }", "return Name[0][0][0][0];",
+		"return sort(5) % 0;", "return -(\"a\");", "return √\"a\";", "return len(); ", "return 9223372036854775807 % -1;", "return (0 - 9223372036854775807 - 1) / -1;"}
 
 // c10Keys: the script executions of the last traced worker.
 var c10Keys []string
